@@ -13,7 +13,7 @@ RULE = (
     "outside PDB limits by drawn modifications - multi-character chain ids, residue numbers shifted above 9999, "
     "serials shifted above 99999, a chain made non-contiguous (its last residue listed after the other chains), or none (already fitting) - emitted as mmCIF by the harness and read with "
     "parse_cif_atoms; the same tables as PDB (always fitting). Oversize constructions built as compact one-atom-per-"
-    "residue tables: 63-70 chains, 10000+ residues in one chain (quick) and 100000+ atoms (thorough). Oracle: own "
+    "residue tables: 63-70 chains, 10000+ residues in one chain - numbered consecutively, or with residues that share a number and differ by insertion code - (quick) and 100000+ atoms (thorough). Oracle: own "
     "feasibility decision (certainly feasible: <=62 chains, atoms+TER <=99999, <=9999 residues per chain; certainly "
     "infeasible: >62 chains or >99999 atoms or >9999 residues in a chain; nothing in between is generated): feasible "
     "=> a table is returned with the same rows in the same order, unchanged name/altloc/residue name/coordinates/"
@@ -427,6 +427,14 @@ def oversize_table(spec):
     elif kind == "residues":
         for k in range(n):
             atoms.append(atom(k + 1, "AA", k + 1, k))
+    elif kind == "residues-icode":
+        # n residues of one chain on only n-2 distinct numbers: two of them share a number with their predecessor and
+        # differ by insertion code (5000, 5000A, 5000B), so counting numbers and counting residues give different answers
+        for k in range(n):
+            num = k + 1 if k < 5000 else (5000 if k < 5002 else k - 1)
+            a = atom(k + 1, "AA", num, k)
+            a["icode"] = "" if k < 5000 or k >= 5002 else "AB"[k - 5000]
+            atoms.append(a)
     elif kind == "atoms":
         for k in range(n):
             atoms.append(atom(k + 1, "AA" if k % 2 else "BB", k // 20 + 1, k))
@@ -498,13 +506,15 @@ def st_cli_cases():
 def plan(tier, seed):
     if tier == "quick":
         specs = [{"kind": "tables", "examples": 50, "seed": seed * 1000 + k} for k in range(14)]
-        specs += [{"kind": "oversize", "cases": [["chains", 63]]}, {"kind": "oversize", "cases": [["chains", 62], ["residues", 10000]]}]
+        specs += [{"kind": "oversize", "cases": [["chains", 63]]}, {"kind": "oversize", "cases": [["chains", 62], ["residues", 10000]]},
+                  {"kind": "oversize", "cases": [["residues-icode", 10000]]}, {"kind": "oversize", "cases": [["residues-icode", 9999]]}]
         specs += [{"kind": "splitter", "examples": 30, "seed": seed * 1000 + 200 + k} for k in range(4)]
         specs += [{"kind": "unifier", "examples": 20, "seed": seed * 1000 + 300 + k} for k in range(4)]
     else:
         specs = [{"kind": "tables", "examples": 320, "seed": seed * 1000 + k} for k in range(14)]
         specs += [{"kind": "oversize", "cases": [["chains", 63], ["chains", 70], ["chains", 62]]},
                   {"kind": "oversize", "cases": [["residues", 10000], ["residues", 9999]]},
+                  {"kind": "oversize", "cases": [["residues-icode", 10000], ["residues-icode", 10001]]}, {"kind": "oversize", "cases": [["residues-icode", 9999]]},
                   {"kind": "oversize", "cases": [["atoms", 100000]]}]
         specs += [{"kind": "splitter", "examples": 300, "seed": seed * 1000 + 200 + k} for k in range(8)]
         specs += [{"kind": "unifier", "examples": 150, "seed": seed * 1000 + 300 + k} for k in range(8)]
